@@ -584,6 +584,22 @@ func edgeBlocked(fl *Flow, b, s *ssa.BasicBlock, blocked func([]Fact) bool, dept
 		}
 		cond, truth = u.X, !truth
 	}
+	// the verdict of an error-returning helper: `helper(..) != nil` / `== nil`; truth then means "returned nil"
+	errVerdict := false
+	if bo, isBin := cond.(*ssa.BinOp); isBin && (bo.Op == token.NEQ || bo.Op == token.EQL) {
+		var other ssa.Value
+		if isNilConst(bo.Y) {
+			other = bo.X
+		} else if isNilConst(bo.X) {
+			other = bo.Y
+		}
+		if c2, isCall := other.(*ssa.Call); isCall && types.Identical(c2.Type(), types.Universe.Lookup("error").Type()) {
+			cond, errVerdict = c2, true
+			if bo.Op == token.NEQ {
+				truth = !truth
+			}
+		}
+	}
 	call, ok := cond.(*ssa.Call)
 	if !ok {
 		return false
@@ -593,7 +609,7 @@ func edgeBlocked(fl *Flow, b, s *ssa.BasicBlock, blocked func([]Fact) bool, dept
 		return false
 	}
 	res := cal.Signature.Results()
-	if res.Len() != 1 || !types.Identical(res.At(0).Type(), types.Typ[types.Bool]) {
+	if res.Len() != 1 || (!errVerdict && !types.Identical(res.At(0).Type(), types.Typ[types.Bool])) {
 		return false
 	}
 	cfl := NewFlow(fl.P, cal)
@@ -635,6 +651,21 @@ func edgeBlocked(fl *Flow, b, s *ssa.BasicBlock, blocked func([]Fact) bool, dept
 	open = func(x *ssa.BasicBlock) bool {
 		if r, ok := x.Instrs[len(x.Instrs)-1].(*ssa.Return); ok {
 			v := retValue(r, 0)
+			if errVerdict {
+				switch {
+				case isNilConst(v):
+					return truth
+				case knownNonNilError(v):
+					return !truth
+				case truth:
+					// `return f(..)`: nil iff f returned nil
+					fs := []Fact{eqFact(cfl.K.Key(v), "nil")}
+					fs = append(fs, cfl.summaryFacts(v, "nil")...)
+					return !inCaller(fs)
+				default:
+					return true
+				}
+			}
 			switch {
 			case isBoolConst(v, truth):
 				return true
@@ -658,6 +689,29 @@ func edgeBlocked(fl *Flow, b, s *ssa.BasicBlock, blocked func([]Fact) bool, dept
 		return false
 	}
 	return !open(cal.Blocks[0])
+}
+
+// openPathTo searches for a CFG path from the entry of fl.Fn to the block of target that crosses
+// no edge closed by `closes` (edge facts, or the verdict of a helper all of whose paths to that
+// verdict cross a closed edge: edgeBlocked). It returns "" if every path is closed.
+func openPathTo(fl *Flow, target ssa.Instruction, closes func([]Fact) bool) string {
+	fn := fl.Fn
+	seen := map[*ssa.BasicBlock]bool{fn.Blocks[0]: true}
+	work := []*ssa.BasicBlock{fn.Blocks[0]}
+	for len(work) > 0 {
+		b := work[0]
+		work = work[1:]
+		if b == target.Block() {
+			return "reaches " + fl.P.Pos(target.Pos())
+		}
+		for _, s := range b.Succs {
+			if !seen[s] && !edgeBlocked(fl, b, s, closes, 0) {
+				seen[s] = true
+				work = append(work, s)
+			}
+		}
+	}
+	return ""
 }
 
 // withOwnedHelpers extends an allowed set of declared functions by their private helpers: an
